@@ -215,6 +215,8 @@ def match_known(known, finding: Finding):
         if k.get("match") and k["match"] in finding.name:
             if k.get("tag") and k["tag"] not in tags:
                 continue
+            if any(t not in tags for t in k.get("tags", [])):
+                continue
             if k.get("kinds") and not any(finding.name.endswith(":" + kd) for kd in k["kinds"]):
                 continue
             return k
